@@ -22,7 +22,16 @@ def run(ctx):
         if rng.random() < 0.6:         # plaintexts that differ only by quote/bracket/terminator characters at their ends
             stem = plains[0]
             plains += [stem + rng.choice(";,}]\"'"), rng.choice("{[\"'") + stem, '"' + stem + '"']
+        if rng.random() < 0.5:         # plaintexts that are not of class text: all digits, hexadecimal, type-7 shaped
+            plains += [str(rng.randrange(1000, 10 ** 8)), "".join(rng.choice("0123456789abcdef") for _ in range(10)) + "f", textgen.make_secret(rng, "type7", 4)]
+        if rng.random() < 0.4:         # values that look like the pseudonyms this run hands out
+            pool += ["netconanRemoved%d" % rng.randrange(0, 4) for _ in range(2)]
         for p in plains:
+            if rng.random() < 0.4:     # a cut-off / corrupted copy: a valid encoding followed by stray alphabet characters is a DIFFERENT secret
+                for extra in (1, 2):
+                    t = textgen.ref_encrypt9(p, rng.choice(textgen.ALPHA9)) + "".join(rng.choice(textgen.ALPHA9) for _ in range(extra))
+                    if textgen.ref_decrypt9(t) is None:
+                        pool.append(t)
             for _ in range(2):
                 pool.append(textgen.ref_encrypt9(p, rng.choice(textgen.ALPHA9)))
             if rng.random() < 0.5 and p[0] not in "{[\"'" and p[-1] not in ";,}]\"'":
@@ -61,7 +70,7 @@ def run(ctx):
         keys = []
         for l, o, (tpl, s, enc) in zip(c[11:], textgen.outlines(out), ms):
             st, repl = secretlib.read_back(tpl, o, enc)
-            if st != "ok" or repl == s:
+            if st != "ok" or (repl == s and not s.startswith("netconanRemoved")):
                 continue
             k = secretlib.secret_key(s)
             keys.append(k)
